@@ -30,15 +30,29 @@ def record_inputs(src, p, has_name):
     """named inputs of one record; every field is an independent symbol"""
     f = {"version": src.bv(p + ".version", 8), "user_id": src.bytes(p + ".user_id", 32), "pk": src.bv(p + ".pk", 64), "seq": src.bv(p + ".seq", 64),
          "name": src.bv(p + ".name", 64) if has_name else None, "elen": src.bv(p + ".elen", 64),
-         "ends": [src.bv(f"{p}.end{i}", 64) for i in range(ECAP)], "ttl": src.bv(p + ".ttl", 32), "ts": src.bv(p + ".ts", 64), "sig": src.bv(p + ".sig", 64)}
+         "ends": [{"uuid": src.bv(f"{p}.end{i}.uuid", 64), "port": src.bv(f"{p}.end{i}.port", 16), "nat": src.bv(f"{p}.end{i}.nat", 3),
+                   "coord": src.bv(f"{p}.end{i}.coord", 64), "dev_some": src.bool(f"{p}.end{i}.dev_some"), "dev": src.bv(f"{p}.end{i}.dev", 64),
+                   "upd": src.bv(f"{p}.end{i}.last_updated", 64)} for i in range(ECAP)], "ttl": src.bv(p + ".ttl", 32), "ts": src.bv(p + ".ts", 64), "sig": src.bv(p + ".sig", 64)}
     return f
+
+
+def endpoint_value(eng, e):
+    """PeerEndpoint with its real fields (identities for the id / address / coordinator list / device string)"""
+    info = eng.enum_info("peer_record::NatType")
+    return mk_struct(eng, "PeerEndpoint", {
+        "endpoint_id": VStruct([VStruct([e["uuid"]], "Uuid")], "EndpointId"),
+        "external_address": VStruct([VStruct([e["port"]], "SocketAddr"), VEnum(OPTION, bv(0, 8), {0: ()})], "NetworkAddress"),
+        "nat_type": VEnum(info, z3.ZeroExt(5, e["nat"]), {i: () for i in range(len(info.variants))}),
+        "coordinator_nodes": VSeq([VStr(e["coord"])], bv(1, 64)),
+        "device_info": VEnum(OPTION, z3.If(e["dev_some"], bv(1, 8), bv(0, 8)), {0: (), 1: (VStr(e["dev"]),)}),
+        "last_updated": e["upd"]})
 
 
 def record_value(eng, f):
     name = VEnum(OPTION, bv(1, 8), {0: (), 1: (VStr(f["name"]),)}) if f["name"] is not None else VEnum(OPTION, bv(0, 8), {0: ()})
     return mk_struct(eng, "PeerDHTRecord", {
         "version": f["version"], "user_id": VStruct([f["user_id"]], "UserId"), "public_key": VBlob(f["pk"], bv(PK_LEN, 64)), "sequence_number": f["seq"],
-        "name": name, "endpoints": VSeq([VStruct([e], "PeerEndpoint") for e in f["ends"]], f["elen"]), "ttl": f["ttl"], "timestamp": f["ts"],
+        "name": name, "endpoints": VSeq([endpoint_value(eng, e) for e in f["ends"]], f["elen"]), "ttl": f["ttl"], "timestamp": f["ts"],
         "signature": VBlob(f["sig"], bv(SIG_LEN, 64))})
 
 
@@ -54,7 +68,10 @@ def same_fields(a, b, skip=()):
     elif a["name"] is not None and "name" not in skip:
         eq.append(a["name"] == b["name"])
     for i in range(ECAP):
-        eq.append(z3.Implies(z3.ULT(bv(i, 64), a["elen"]), a["ends"][i] == b["ends"][i]))
+        ea, eb = a["ends"][i], b["ends"][i]
+        same = z3.And(ea["uuid"] == eb["uuid"], ea["port"] == eb["port"], ea["nat"] == eb["nat"], ea["coord"] == eb["coord"], ea["dev_some"] == eb["dev_some"],
+                      z3.Implies(ea["dev_some"], ea["dev"] == eb["dev"]), ea["upd"] == eb["upd"])
+        eq.append(z3.Implies(z3.ULT(bv(i, 64), a["elen"]), same))
     return z3.And(*eq)
 
 
@@ -91,6 +108,9 @@ def build_pair(ck, names, src, obs=None):
     f2 = record_inputs(src, "r2", names[1])
     maxsz = src.bv("cache.max_size", 64)
     hyps = list(src.hyps) + [z3.ULE(f1["elen"], bv(ECAP, 64)), z3.ULE(f2["elen"], bv(ECAP, 64)), z3.UGE(maxsz, bv(2, 64))]
+    for f in (f1, f2):
+        for e in f["ends"]:
+            hyps.append(z3.ULE(e["nat"], bv(5, 3)))
     for f in (f1, f2):
         if f["name"] is not None:
             strlen = z3.Function("strlen", z3.BitVecSort(64), z3.BitVecSort(64))
